@@ -196,6 +196,9 @@ ANIdestroy(void)
     /* Destroy the atom groups for annotations */
     HAdestroy_group(ANIDGROUP);
 
+    /* Allow the interface to be initialized again */
+    library_terminate = FALSE;
+
     return ret_value;
 } /* ANIdestroy () */
 
